@@ -345,8 +345,10 @@ func runLinger(m map[string]string) string {
 				if kind == "tcp" || kind == "gnet" || kind == "tls" {
 					via = "whole"
 				}
+				withOpt := ki%2 == 0 // every other listener kind is asked with EDNS0: the SERVFAIL at the deadline is the
+				// answer to a supported query and carries one OPT iff the query had one (C12)
 				t0 := time.Now()
-				res := lfix.exchange(kind, buildQuery(id, name, 1, false, 0), via, 10*time.Second)
+				res := lfix.exchange(kind, buildQuery(id, name, 1, withOpt, 1232), via, 10*time.Second)
 				el := time.Since(t0)
 				if res.status != "resp" {
 					if os.Getenv("MIXDEBUG") != "" {
@@ -372,7 +374,13 @@ func runLinger(m map[string]string) string {
 				if rm.Header.RCode == dnsmsg.RCodeServerFailure {
 					rcodeok++
 				}
-				if len(rm.Questions) <= 1 && len(rm.Answers) == 0 {
+				nopt := 0
+				for _, rr := range rm.Additionals {
+					if rr.Hdr().Type == dnsmsg.TypeOPT {
+						nopt++
+					}
+				}
+				if len(rm.Questions) <= 1 && len(rm.Answers) == 0 && nopt == map[bool]int{true: 1, false: 0}[withOpt] {
 					own++
 				}
 			}()
